@@ -9,6 +9,7 @@ import CSD.Lemmas.VByte
 import CSD.Lemmas.LogSeq
 import CSD.Lemmas.LogSeqIO
 import CSD.Lemmas.DAC
+import CSD.Lemmas.DACImage
 
 namespace CSD.Props.C17
 open CSD
@@ -108,6 +109,21 @@ example : (∀ s ∈ ([[5], [7, 8, 9], [1, 2]] : List (List Nat)), s ≠ []) ∧
 /-- Non-vacuity: a 50-bit field at index 1 straddles words 0 and 1. -/
 example : (1 * 50 + 50 ≤ 64 * (LogSeq.mk 50 2).data.length) ∧ (1 * 50) % 64 + 50 > 64 := by decide
 
+/-- **A DAC_VLS survives save/load unchanged, byte for byte**: `load` applied to the bytes `save` wrote
+(followed by anything) returns every scalar field, the level index, the packed level words, the rank samples
+and the continuation bitmap (a BitSequenceRG image: words and `BuildRank` counters), and consumes exactly the
+image. -/
+theorem dac_image_reloads (d : DACImg.Img) (wf : DACImg.WF d) (rest : List UInt8) :
+    DACImg.loadImg (DACImg.saveImg d ++ rest) = some (d, rest) :=
+  DACImg.loadImg_saveImg d wf rest
+
+/-- Non-vacuity: a one-level DAC over two sequences with a one-bit bitmap. -/
+def dacExample : DACImg.Img := {
+  tamCode := 16, listLength := 2, nLevels := 1, baseBits := 8, levelsIndex := [0, 2], levels := [513],
+  rankLevels := [0], bs := { n := 1, factor := 20, data := [1], Rs := [0] } }
+
+example : DACImg.loadImg (DACImg.saveImg dacExample ++ [9]) = some (dacExample, [9]) := by decide
+
 /-- The models this file's theorems are about were written against the current text of the C++
 functions they mirror (`CSD/Generated/Bodies.lean` is re-extracted from the sources on every run,
 `CSD/Model/SourceText.lean` is what was reviewed): an edit of one of these functions breaks this
@@ -122,6 +138,10 @@ theorem models_match_source_text :
     Generated.body_LogSequence_save = SourceText.body_LogSequence_save ∧
     Generated.body_DAC_VLS_ctor = SourceText.body_DAC_VLS_ctor ∧
     Generated.body_DAC_VLS_access = SourceText.body_DAC_VLS_access ∧
-    Generated.body_DAC_VLS_access_next = SourceText.body_DAC_VLS_access_next := ⟨rfl, rfl, rfl, rfl, rfl, rfl, rfl, rfl, rfl, rfl⟩
+    Generated.body_DAC_VLS_access_next = SourceText.body_DAC_VLS_access_next ∧
+    Generated.body_DAC_VLS_save = SourceText.body_DAC_VLS_save ∧
+    Generated.body_DAC_VLS_load = SourceText.body_DAC_VLS_load ∧
+    Generated.body_RG_save = SourceText.body_RG_save ∧
+    Generated.body_RG_load = SourceText.body_RG_load := ⟨rfl, rfl, rfl, rfl, rfl, rfl, rfl, rfl, rfl, rfl, rfl, rfl, rfl, rfl⟩
 
 end CSD.Props.C17
